@@ -91,3 +91,36 @@ Definition encode (h : msg) (rid ps : N) (body : list N) : list N :=
 
 (* TerminalPhoneNo as the library renders it *)
 Definition phone_of (m : msg) : list N := bcd2dec (m_bcd m).
+
+(* ---------- the same decoder written against the checked Go-slice primitives ----------
+   Every index / slice expression of Header.decode and JTMessage.Decode is evaluated with
+   [idx] / [slice], which yield Panic beyond len (cap = len).  Proofs/Frame_proofs.v shows
+   decode_chk = decode, i.e. the guards of the code make every access in range. *)
+Definition be16_at (p : list N) (i : N) : result N :=
+  s <- slice p i (i + 2) ;; Ok (be_dec s).
+
+Definition decode_chk (d : list N) : result msg :=
+  p <- unescape d ;;
+  if negb (xor_all p =? 0) then Err E_CHECK else
+  if len p <? 4 then Err E_HEAD_SHORT else
+  id <- be16_at p 0 ;;
+  attr <- be16_at p 2 ;;
+  let ver := N.land (N.shiftr attr 14) 1 in
+  let frag := N.land (N.shiftr attr 13) 1 in
+  let enc := N.shiftr (N.land attr 1024) 10 in
+  let blen := N.land attr 1023 in
+  let start := if ver =? 1 then 5 else 4 in
+  let plen := if ver =? 1 then 10 else 6 in
+  if len p <? start + plen + 2 then Err E_HEAD_SHORT else
+  bcd <- slice p start (start + plen) ;;
+  ser <- be16_at p (start + plen) ;;
+  if (frag =? 1) && (len p <? start + plen + 6) then Err E_HEAD_SHORT else
+  sum <- (if frag =? 1 then be16_at p (start + plen + 2) else Ok 0) ;;
+  no <- (if frag =? 1 then be16_at p (start + plen + 4) else Ok 0) ;;
+  let hend := if frag =? 1 then start + plen + 6 else start + plen + 2 in
+  if negb (hend + blen + 1 =? len p) then Err E_BODY_LEN else
+  body <- slice p hend (hend + blen) ;;
+  chk <- idx p (hend + blen) ;;
+  Ok {| m_id := id; m_len := blen; m_enc := enc; m_frag := frag; m_ver := ver;
+        m_bcd := bcd; m_serial := ser; m_sum := sum; m_no := no;
+        m_body := body; m_check := chk |}.
